@@ -352,3 +352,12 @@ impl<T> Display for Router<T> {
         write!(f, "{}", self.root)
     }
 }
+
+#[cfg(feature = "verif")]
+impl<T> Router<T> {
+    /// Read-only structural dump of the node tree, for external verification tooling.
+    #[must_use]
+    pub fn verif_dump(&self) -> crate::verif::NodeDump {
+        crate::verif::dump_node(&self.root)
+    }
+}
